@@ -10,11 +10,11 @@ sys.path.insert(0, HERE)
 CLAIMS = {
     "C01": dict(technique="static analysis: symbolic shape identities (polynomial normal forms over instance parameters, gadget objects evaluated from constructors), panic-precondition analysis for narrow-integer totality, decoder/constructor agreement over MIR",
                 design="DESIGN.md section 5 C01"),
-    "C02": dict(technique="static analysis: guard-relation/dominance rules and equality-coverage over compiler MIR facts",
+    "C02": dict(technique="static analysis: guard-relation/dominance rules (literal relations or decided by value over the branches on the operand), equality coverage, symbolic shape identities, clone-faithfulness and multithreaded-gadget sibling rules over compiler MIR facts",
                 design="DESIGN.md section 5 C02"),
-    "C04": dict(technique="static analysis: typestate decision-table extraction over enum discriminants in MIR, guard-relation rules",
+    "C04": dict(technique="static analysis: typestate decision-table extraction over enum discriminants in MIR (accepting rows taken apart per merged definition), guard-relation rules, per-path polynomial evaluation of the sketch formulas, keystream block-range/offset term rules",
                 design="DESIGN.md section 5 C04"),
-    "C05": dict(technique="static analysis: guard-relation/dominance rules over compiler MIR facts",
+    "C05": dict(technique="static analysis: symbolic shape identities (polynomial normal forms), guard-relation/dominance rules, transcription rules of the polynomial routines, clone-faithfulness and multithreaded-gadget sibling rules over compiler MIR facts",
                 design="DESIGN.md section 5 C05"),
     "C12": dict(technique="static analysis: typestate decision tables, operand-provenance (share order), effect reachability over the call graph",
                 design="DESIGN.md section 5 C12"),
@@ -35,9 +35,9 @@ CLAIMS.update({
                 design="DESIGN.md section 5 C16"),
     "C17": dict(technique="static analysis: interprocedural may-depend (explicit information flow, must-not-depend) over MIR with alias and closure handling",
                 design="DESIGN.md section 5 C17"),
-    "C18": dict(technique="static analysis: interprocedural may-depend (must-depend queries per XOF binding), absorption-shape and guard-relation rules over MIR",
+    "C18": dict(technique="static analysis: interprocedural may-depend (must-depend queries per XOF binding), absorption-shape, guard-relation and algorithm-identifier (constructor agreement, distinctness) rules over MIR",
                 design="DESIGN.md section 5 C18"),
-    "C09": dict(technique="static analysis (partial): number-theoretic relations of the compiler-evaluated field constants checked by integer arithmetic in the checker (orders of G and ROOTS, MU, R2, HALF, BIT_MASK, primality), accessor/wiring/projection term rules and the reviewed conditional-subtraction shape over MIR; the multiplier core is not decided",
+    "C09": dict(technique="static analysis (partial): number-theoretic relations of the compiler-evaluated field constants checked by integer arithmetic in the checker (orders of G and ROOTS, MU, R2, HALF, BIT_MASK, primality); accessor/wiring/projection term rules over MIR; the two Montgomery multipliers decided as a polynomial identity over Q on their straight-line single-assignment terms (high parts eliminated, interval range obligations for every machine operation) plus the reviewed conditional-subtraction shape",
                 design="DESIGN.md section 5 C09"),
     "C10": dict(technique="static analysis (partial): guard-relation rules with thresholds evaluated against MAX_ROOTS/NUM_ROOTS, error propagation, and structural necessary conditions (loop ranges, butterfly stores, every-iteration updates, overwrite-not-accumulate) of the NTT and Lagrange routines over MIR; numerical equality with the definitions is not decided",
                 design="DESIGN.md section 5 C10"),
